@@ -511,7 +511,9 @@ def r4_recording_robust(ctx, sym):
                       "PYTHONNODEBUGRANGES=1 (or python -X no_debug_ranges): every student runtime error, even `a / b`, "
                       "makes run() raise TypeError into the instructor script")
     ctx.floor('R4', 'functions in the taint closure', n_fns, 3)
-    ctx.floor('R4', 'conversion sites of the exception object', n_conv, 1)
+    # (no floor on the number of conversion sites: the constructor is executed above for every message text, a failing
+    #  __str__ included, wherever the conversion itself lives)
+    ctx.info('conversion sites of the exception object followed by the taint sweep: %d' % n_conv)
     # templates
     base = sym.find_class(FEEDBACKS, 'runtime_error')
     raw_fields = {'exception', 'traceback', 'context'}
